@@ -22,14 +22,24 @@
      ReadOnly  Verify changes neither the request nor the reply  (msg' = msg)
    `AsFound` selects what Verify does to the message it checks: TRUE = the code as found
    (RelayExchange.DataToSign clears the salt through the shared RelayData pointer, F14),
-   FALSE = fixes/F14_salt_copy.patch. *)
+   FALSE = fixes/F14_salt_copy.patch.
+
+   "Modifies" includes memory that is not visible through the reply's fields: reply.Data is a
+   window buf[:n] of a buffer.  `buf.layout` says what lies behind the window: "exact" (no spare
+   capacity), "spare" (spare capacity >= the signed message, owned by somebody else, modelled as
+   `buf.tail`), "shared" (the request's data is a window of the same buffer right behind the reply
+   data).  A DataToSign that appends to reply.Data in place (InPlace = TRUE) overwrites the tail and,
+   in the shared layout, the request data - after which the untouched exchange no longer verifies
+   (Verify is therefore modelled twice: Verify, Reverify; `Stable`). *)
 EXTENDS Integers, Sequences, FiniteSets, TLC, Json
 
 CONSTANTS AsFound,   \* see above
+          InPlace,   \* TRUE = DataToSign builds the message with append(reply.Data, ...) (seeded/C25_1)
           MdLen      \* longest metadata list enumerated
 
-VARIABLES kind, msg, signed, tampered, verdict, phase
-vars == <<kind, msg, signed, tampered, verdict, phase>>
+VARIABLES kind, msg, signed, tampered, verdict, verdict2, phase,
+          buf      \* memory layout of the checked reply's data: [layout, tail]
+vars == <<kind, msg, signed, tampered, verdict, verdict2, phase, buf>>
 
 (***************************************************************************************************)
 (* Field tables                                                                                    *)
@@ -84,26 +94,39 @@ Ideal(k, m) == [f \in Signed(k) |-> m[f]]
 Present == {"qos_report", "qos_excellence_report"}
 Base(k, b) == [f \in Fields(k) |-> IF f \in MdFields THEN (IF b = 0 THEN <<>> ELSE <<<<"a", "b">>>>) ELSE
                                    IF f = "sig" \/ f \in Present THEN 0 ELSE b]
+Layouts == {"exact", "spare", "shared"}
 Init == /\ kind \in Kinds /\ \E b \in 0..1 : msg = Base(kind, b)
-        /\ signed = <<>> /\ tampered = <<>> /\ verdict = "none" /\ phase = "new"
+        /\ buf \in {[layout |-> y, tail |-> "sentinel"] : y \in IF kind = "reply" THEN Layouts ELSE {"exact"}}
+        /\ signed = <<>> /\ tampered = <<>> /\ verdict = "none" /\ verdict2 = "none" /\ phase = "new"
 
+\* (the provider signs its own objects; only the consumer-side objects that are *checked* are modelled)
 Sign == /\ phase = "new" /\ phase' = "signed"
         /\ signed' = [view |-> View(kind, msg), ideal |-> Ideal(kind, msg), orig |-> msg]
-        /\ UNCHANGED <<kind, msg, tampered, verdict>>
+        /\ UNCHANGED <<kind, msg, tampered, verdict, verdict2, buf>>
 
 Tamper(f, v) == /\ phase = "signed" /\ phase' = "tampered"
                 /\ msg' = [msg EXCEPT ![f] = v]
                 /\ tampered' = <<f, v>>
-                /\ UNCHANGED <<kind, signed, verdict>>
+                /\ UNCHANGED <<kind, signed, verdict, verdict2, buf>>
 
 \* sigs.RecoverPubKey over DataToSign: the signer is recovered iff the views agree and the signature is intact
 Accepts(k, m, s) == m["sig"] = 0 /\ View(k, m) = s.view
+\* what evaluating DataToSign does to the checked objects (nothing, in the correct code)
+Scribbles == InPlace /\ kind = "reply" /\ buf.layout # "exact"
+AfterCheck(m) == LET m1 == IF AsFound /\ kind = "reply" THEN [m EXCEPT !["req.salt"] = 0] ELSE m   \* 0 = empty salt
+                 IN  IF Scribbles /\ buf.layout = "shared" THEN [m1 EXCEPT !["req.data"] = 3] ELSE m1   \* 3 = garbage
 Verify == /\ phase \in {"signed", "tampered"} /\ phase' = "verified"
           /\ verdict' = IF Accepts(kind, msg, signed) THEN "ok" ELSE "reject"
-          /\ msg' = IF AsFound /\ kind = "reply" THEN [msg EXCEPT !["req.salt"] = 0] ELSE msg   \* 0 = empty salt
-          /\ UNCHANGED <<kind, signed, tampered>>
+          /\ msg' = AfterCheck(msg)
+          /\ buf' = IF Scribbles THEN [buf EXCEPT !.tail = "overwritten"] ELSE buf
+          /\ UNCHANGED <<kind, signed, tampered, verdict2>>
+Reverify == /\ phase = "verified" /\ phase' = "reverified"
+            /\ verdict2' = IF Accepts(kind, msg, signed) THEN "ok" ELSE "reject"
+            /\ msg' = AfterCheck(msg)
+            /\ buf' = IF Scribbles THEN [buf EXCEPT !.tail = "overwritten"] ELSE buf
+            /\ UNCHANGED <<kind, signed, tampered, verdict>>
 
-Next == Sign \/ (\E f \in Fields(kind) : \E v \in Vals(f) : Tamper(f, v)) \/ Verify
+Next == Sign \/ (\E f \in Fields(kind) : \E v \in Vals(f) : Tamper(f, v)) \/ Verify \/ Reverify
 
 (***************************************************************************************************)
 (* C25                                                                                             *)
@@ -112,13 +135,16 @@ Next == Sign \/ (\E f \in Fields(kind) : \E v \in Vals(f) : Tamper(f, v)) \/ Ver
 Expected(k, orig, m) == IF m["sig"] = 0 /\ Ideal(k, m) = Ideal(k, orig) THEN "ok" ELSE "reject"
 TamperedReplyMd == tampered # <<>> /\ tampered[1] = "reply.metadata"
 \* holds for every field whose signed form is its delimited text form ...
-BindsOther   == phase = "verified" /\ ~TamperedReplyMd => verdict = Expected(kind, signed.orig, msg)
+BindsOther   == phase \in {"verified", "reverified"} /\ ~TamperedReplyMd => verdict = Expected(kind, signed.orig, msg)
 \* ... but not for the reply's metadata (MdEnc is not injective): TLC refutes this one, the collision
 \* pairs are replayed against the real code (checks/C25.py)
-BindsReplyMd == phase = "verified" /\ TamperedReplyMd => verdict = Expected(kind, signed.orig, msg)
-\* Verify must not touch the message it checks (fails for AsFound = TRUE on a base with a salt)
-ReadOnly == [][phase' = "verified" => msg' = msg]_vars
-TypeOK   == kind \in Kinds /\ phase \in {"new", "signed", "tampered", "verified"}
+BindsReplyMd == phase \in {"verified", "reverified"} /\ TamperedReplyMd => verdict = Expected(kind, signed.orig, msg)
+\* Verify must not touch the message it checks, nor the memory behind the reply data
+\* (fails for AsFound = TRUE on a base with a salt, and for InPlace = TRUE on a buffer with spare capacity)
+ReadOnly == [][phase' \in {"verified", "reverified"} => msg' = msg /\ buf' = buf]_vars
+\* checking again gives the same answer
+Stable   == phase = "reverified" => verdict2 = verdict
+TypeOK   == kind \in Kinds /\ phase \in {"new", "signed", "tampered", "verified", "reverified"}
 
 \* classification of a metadata collision x # y, MdEnc(x) = MdEnc(y)
 Strip(md) == SelectSeq(md, LAMBDA e : e # <<"", "">>)
